@@ -90,6 +90,7 @@ template<class T> struct KllF {
   static const char* name() { return "kll"; }
   static Sk make(unsigned k, bool) { return Sk((uint16_t)k); }
   static void on_new(Ev&, const Sk&) {}
+  static bool refusable(const Sk&, int, std::unique_ptr<Sk>&, bool&) { return false; }   // no incompatible operand exists (M is fixed)
   static unsigned min_k() { return 8; }
   static unsigned draw_k(vt::Rng& g, long maxk) { return g.chance(50) ? 8 : (unsigned)g.range(8, maxk); }
   // the space the sketch publishes: serialized size against get_max_serialized_size_bytes(k, n)
@@ -136,6 +137,14 @@ template<class T> struct ReqF {
     for (;;) { ssr = ssr / sqrtf(2); unsigned ne = nearest_even(ssr); if (ne < req_constants::MIN_K) break; secs.push_back(ne); }
     e.il("secs", secs);
   }
+  // an operand of the OTHER accuracy mode: 0 empty, 1 a few items of a wider range, 2 estimating (more levels than a small target) and wider
+  static bool refusable(const Sk& s, int variant, std::unique_ptr<Sk>& out, bool& must_throw) {
+    out.reset(new Sk(s.get_k(), !s.is_HRA()));
+    const long cnt = variant == 0 ? 0 : variant == 1 ? 5 : 40L * s.get_k();
+    for (long i = 0; i < cnt; i++) out->update(Ad<T>::mk((i % 2 ? 80000 : -80000) + (i * 7) % 900));
+    must_throw = cnt > 0;     // a non-empty operand of the other mode cannot be merged; what happens with an empty one is not claimed
+    return true;
+  }
   static unsigned min_k() { return 4; }
   static unsigned draw_k(vt::Rng& g, long maxk) { return g.chance(50) ? 4 : (unsigned)g.range(4, maxk); }
   // the space the sketch publishes: retained items against "Capacity items" of to_string()
@@ -156,6 +165,7 @@ template<class T> struct ClassicF {
   static const char* name() { return "classic"; }
   static Sk make(unsigned k, bool) { return Sk((uint16_t)k); }
   static void on_new(Ev&, const Sk&) {}
+  static bool refusable(const Sk&, int, std::unique_ptr<Sk>&, bool&) { return false; }   // every k is a power of two: always compatible
   static unsigned min_k() { return 2; }
   static unsigned draw_k(vt::Rng& g, long maxk) { unsigned k = 2; while (k * 2 <= (unsigned)maxk && g.chance(55)) k *= 2; return k; }
   static void space(const Sk&, long long& used, long long& bound) { used = 0; bound = 0; }   // documented formula, computed by the specification
@@ -496,7 +506,7 @@ template<class F, class T> static void segment(vt::Rng& g, long seg, long events
         const uint64_t os2 = os + (uint64_t)bq * 104729;
         if (A::has_nan && g.chance(3)) {
           seed_op(os2); s.update(A::nan());
-          Ev e("UpdateNaN"); e.i("id", i); scalars<F, T>(e, s); e.emit();
+          Ev e("UpdateNaN"); e.i("id", i); scalars<F, T>(e, s); iterate<F, T>(e, s, nullptr); e.emit();
           if (tw[i]) { seed_op(os2); tw[i]->update(A::nan()); Ev t("UpdateNaN"); t.i("id", TW + i).b("restored", true); scalars<F, T>(t, *tw[i]); t.emit(); }
           continue;
         }
@@ -563,6 +573,26 @@ template<class F, class T> static void segment(vt::Rng& g, long seg, long events
           qs.push_back({"pmf-nan", [=](const Sk& z) { z.get_PMF(na + 1, 1, true); }});
         }
       }
+      // a REFUSED call must leave every observable of the (live, continuing) sketch unchanged: query; refused call; full projection
+      observe(i, os + 13);
+      std::unique_ptr<Sk> bad; bool must_throw = false;
+      if (g.chance(45) && F::refusable(s, (int)g.below(3), bad, must_throw)) {
+        const bool rv = g.chance(50);
+        for (int who = 0; who < 2; who++) {
+          if (who == 1 && !tw[i]) break;
+          Sk& z = who == 0 ? s : *tw[i];
+          Sk operand(*bad);
+          bool threw = false;
+          seed_op(os + 14);
+          try { if (rv) z.merge(std::move(operand)); else z.merge(operand); } catch (const std::exception&) { threw = true; }
+          Ev e("Refused"); e.i("id", who == 0 ? i : TW + i).str("what", "merge-other-accuracy-mode").b("rv", rv).i("opn", (long long)bad->get_n())
+            .b("mustthrow", must_throw).b("threw", threw).b("sorts", false);
+          if (who == 1) e.b("restored", true).i("twinOf", i);
+          scalars<F, T>(e, z); iterate<F, T>(e, z, nullptr); e.emit();
+        }
+        version[i]++;
+        continue;
+      }
       const Q& q = qs[g.below(qs.size())];
       version[i]++;
       for (int who = 0; who < 2; who++) {
@@ -572,7 +602,8 @@ template<class F, class T> static void segment(vt::Rng& g, long seg, long events
         try { q.f(z); } catch (const std::exception&) { threw = true; }
         const bool sorts = !strncmp(q.what, "cdf", 3) || !strncmp(q.what, "pmf", 3);   // get_CDF / get_PMF build the sorted view before checking the split points
         Ev e("Invalid"); e.i("id", who == 0 ? i : TW + i).str("what", q.what).b("onempty", onempty).b("sorts", sorts).b("threw", threw);
-        if (who == 1) e.b("restored", true);
+        if (who == 1) e.b("restored", true).i("twinOf", i);
+        scalars<F, T>(e, z); iterate<F, T>(e, z, nullptr);
         e.emit();
       }
     } else if (op < upd + 22 + serde_pct) {
